@@ -550,3 +550,157 @@ Proof.
     destruct (in_split _ _ Hin) as (h1 & h2 & ->). exists h1, h2.
     cbn [fst]. rewrite stream_app. reflexivity.
 Qed.
+
+(* ---------- sessions: late and replaced transports ---------- *)
+Lemma unseg_seg {W} (ops : list (sop W)) : unseg (fst (seg ops)) (snd (seg ops)) = ops.
+Proof.
+  induction ops as [|o r IH]; [reflexivity|].
+  destruct o as [w h|s]; cbn [seg]; destruct (seg r) as [ss0 segs]; cbn [fst snd] in IH |- *.
+  - unfold unseg in IH |- *. cbn [map app flat_map fst snd]. rewrite IH. reflexivity.
+  - unfold unseg in IH |- *. cbn [map app]. rewrite IH. reflexivity.
+Qed.
+
+(* what one message looks like on a writer: a frame, or the bare body when headers are off *)
+Definition render (c : cfg) (j : json) : list N :=
+  if include_headers c then frame (dumps j) else dumps j.
+
+Lemma send_data_render c j : writer c <> WNone ->
+  send_data c (Tree true j) = ([Write (render c j)], RetNone).
+Proof.
+  intros Hw. unfold send_data, render. cbn [negb].
+  destruct (include_headers c).
+  - fold (frame (dumps j)). rewrite (py_encode_ascii _ (frame_ascii j)).
+    destruct (writer c); [congruence|reflexivity..].
+  - rewrite (py_encode_ascii _ (dumps_ascii j)). destruct (writer c); [congruence|reflexivity..].
+Qed.
+
+Theorem do_send_render c s : writer c <> WNone ->
+  do_send c s = map (fun j => Write (render c j)) (sent_trees s).
+Proof.
+  intros Hw.
+  destruct s as [id [r|] | id e | m [p|] | id m [p|] | [j|]]; cbn [do_send sent_trees map].
+  - unfold send_response, msg. rewrite send_data_render by exact Hw. reflexivity.
+  - unfold send_response, msg. rewrite send_data_unser by exact Hw.
+    rewrite send_data_render by exact Hw. reflexivity.
+  - unfold send_response. rewrite send_data_render by exact Hw. reflexivity.
+  - unfold notify, msg. rewrite send_data_render by exact Hw. reflexivity.
+  - unfold notify, msg. rewrite send_data_unser by exact Hw. reflexivity.
+  - unfold send_request, msg. rewrite send_data_render by exact Hw. reflexivity.
+  - unfold send_request, msg. rewrite send_data_unser by exact Hw. reflexivity.
+  - destruct (truthy j); [rewrite send_data_render by exact Hw|]; reflexivity.
+  - rewrite send_data_unser by exact Hw. reflexivity.
+Qed.
+
+Lemma do_send_no_writer c s : writer c = WNone -> do_send c s = [].
+Proof.
+  intros Hw.
+  assert (D : forall d, send_data c d = ([], RetNone)).
+  { intros d. unfold send_data. rewrite Hw. destruct d as [[|] j|[|]]; reflexivity. }
+  destruct s as [id r | id e | m p | id m p | d]; cbn [do_send];
+    unfold send_response, notify, send_request; rewrite ?D; reflexivity.
+Qed.
+
+(* every write call carries exactly one rendered message: the chunks a writer receives *)
+Lemma chunks_sender_ops c ss : writer c <> WNone ->
+  flat_map op_chunk (sender_ops c ss) = map (render c) (flat_map sent_trees ss).
+Proof.
+  intros Hw. unfold sender_ops. induction ss as [|s r IH]; [reflexivity|].
+  cbn [flat_map]. rewrite flat_map_app, map_app, IH. f_equal.
+  unfold send_ops. rewrite do_send_render by exact Hw.
+  induction (sent_trees s) as [|j t IHt]; [reflexivity|].
+  cbn [map flat_map]. rewrite flat_map_app, IHt. cbn [call_ops].
+  destruct (writer c); [congruence|reflexivity..].
+Qed.
+
+Definition cur_out (st : pstate) (ss : list send) : list (nat * top) :=
+  match p_writer st with
+  | Some (i, _) => tag_ops i (sender_ops (p_cfg st) ss)
+  | None => []
+  end.
+
+Lemma p_run_sends st ss rest :
+  p_run st (map OSend ss ++ rest) = cur_out st ss ++ p_run st rest.
+Proof.
+  induction ss as [|s r IH].
+  - unfold cur_out. cbn [map app sender_ops flat_map tag_ops]. destruct (p_writer st) as [[i w]|]; reflexivity.
+  - cbn [map app p_run p_step]. rewrite IH. unfold cur_out.
+    destruct (p_writer st) as [[i w]|]; [|reflexivity].
+    unfold sender_ops, tag_ops. cbn [flat_map]. rewrite map_app, app_assoc. reflexivity.
+Qed.
+
+Fixpoint tagsegs (n : nat) (segs : list (wkind * bool * list send)) : list (nat * top) :=
+  match segs with
+  | [] => []
+  | g :: r => tag_ops n (sender_ops {| writer := fst (fst g); include_headers := snd (fst g) |} (snd g))
+              ++ tagsegs (S n) r
+  end.
+
+Lemma p_run_unseg segs : forall st ss0,
+  p_run st (unseg ss0 segs) = cur_out st ss0 ++ tagsegs (p_next st) segs.
+Proof.
+  induction segs as [|[[w h] ss] r IH]; intros st ss0; unfold unseg.
+  - cbn [flat_map]. rewrite p_run_sends. reflexivity.
+  - cbn [flat_map fst snd]. rewrite p_run_sends. f_equal.
+    cbn [app p_run p_step].
+    pose proof (IH {| p_writer := Some (p_next st, w); p_headers := h; p_next := S (p_next st) |} ss) as E.
+    unfold unseg in E. rewrite E. reflexivity.
+Qed.
+
+Lemma for_writer_app i a b : for_writer i (a ++ b) = for_writer i a ++ for_writer i b.
+Proof. unfold for_writer. rewrite filter_app, map_app. reflexivity. Qed.
+
+Lemma for_writer_tag i n ops : for_writer i (tag_ops n ops) = if Nat.eqb n i then ops else [].
+Proof.
+  unfold for_writer, tag_ops. induction ops as [|o r IH]; [destruct (Nat.eqb n i); reflexivity|].
+  cbn [map filter fst]. destruct (Nat.eqb n i) eqn:E; cbn [map snd]; rewrite IH; reflexivity.
+Qed.
+
+Lemma for_writer_tagsegs_lt segs : forall n i, (i < n)%nat -> for_writer i (tagsegs n segs) = [].
+Proof.
+  induction segs as [|g r IH]; intros n i H; [reflexivity|].
+  cbn [tagsegs]. rewrite for_writer_app, for_writer_tag.
+  replace (Nat.eqb n i) with false by (symmetry; apply Nat.eqb_neq; lia).
+  rewrite IH by lia. reflexivity.
+Qed.
+
+Lemma for_writer_tagsegs segs : forall n i w h ss, nth_error segs i = Some (w, h, ss) ->
+  for_writer (n + i) (tagsegs n segs) = sender_ops {| writer := w; include_headers := h |} ss.
+Proof.
+  induction segs as [|g r IH]; intros n i w h ss H; [destruct i; discriminate|].
+  cbn [tagsegs]. rewrite for_writer_app, for_writer_tag. destruct i as [|i].
+  - cbn [nth_error] in H. injection H as ->. rewrite Nat.add_0_r, Nat.eqb_refl.
+    rewrite for_writer_tagsegs_lt by lia. apply app_nil_r.
+  - cbn [nth_error] in H. replace (Nat.eqb n (n + S i)) with false by (symmetry; apply Nat.eqb_neq; lia).
+    replace (n + S i)%nat with (S n + i)%nat by lia. apply (IH (S n) i w h ss H).
+Qed.
+
+(* Everything writer number i ever receives is what ONE configuration - the one given to its own
+   set_writer call - produces for exactly the sends made while it was installed, in order.  Sends made
+   before the first set_writer (ss0) appear nowhere. *)
+Theorem session_per_writer ss0 segs i w h ss : nth_error segs i = Some (w, h, ss) ->
+  for_writer i (p_run p_init (unseg ss0 segs)) = sender_ops {| writer := w; include_headers := h |} ss.
+Proof.
+  intros H. rewrite p_run_unseg. unfold cur_out. cbn [p_init p_writer p_next app].
+  exact (for_writer_tagsegs segs 0 i w h ss H).
+Qed.
+
+
+(* headers on: that writer's byte stream is a concatenation of whole frames, decoding to exactly the
+   messages sent while it was installed *)
+Theorem session_writer_frames ss0 segs i w ss : nth_error segs i = Some (w, true, ss) -> w <> WNone ->
+  spec_decode (stream (for_writer i (p_run p_init (unseg ss0 segs)))) =
+  Some (map dumps (flat_map sent_trees ss)).
+Proof.
+  intros H Hw. rewrite (session_per_writer ss0 segs i w true ss H).
+  apply sender_stream_decodes. unfold framed. cbn [include_headers writer andb].
+  destruct w; [congruence|reflexivity..].
+Qed.
+
+(* headers off: no frame syntax at all; every write call carries exactly one whole body *)
+Theorem session_writer_bare ss0 segs i w ss : nth_error segs i = Some (w, false, ss) -> w <> WNone ->
+  flat_map op_chunk (for_writer i (p_run p_init (unseg ss0 segs))) =
+  map dumps (flat_map sent_trees ss).
+Proof.
+  intros H Hw. rewrite (session_per_writer ss0 segs i w false ss H).
+  rewrite chunks_sender_ops by exact Hw. reflexivity.
+Qed.
